@@ -1,7 +1,7 @@
 """C04 -- paraxial properties equal matrix optics (structural clauses)."""
 import ast
 from ..core import Result
-from ..pm import AnalysisError, unparse
+from ..pm import AnalysisError, Missing, unparse
 from ..match import Code
 from ..paths import paths, annotate, callee_names, call_attr
 from ..rat import (Ev, Rat, Sym, Poly, fn_eval, rat_eq, Inconclusive, ONE,
@@ -320,7 +320,9 @@ def crossing(ctx):
         if not isinstance(out, Rat):
             raise AnalysisError(f'CROSSING {name}: no scalar return')
         if info['reverse'] is None:
-            raise AnalysisError(f'CROSSING {name}: no _trace_generic call')
+            raise Missing('CROSSING', f, f'{name} paraxial trace',
+                          f'{name} does not obtain its value from a paraxial '
+                          f'trace (no _trace_generic call on the evaluated path)')
         if info['reverse'] != rev:
             res.fail(ctx.finding(
                 'CROSSING', f, f.node,
